@@ -551,6 +551,17 @@ func init() {
 				}
 				return true
 			}
+			// T4: work proportional to the input (deterministic allocation counters; runs before anything parallel)
+			for _, sh := range c07ScaleShapes {
+				cs := c07ScaleCase{Kind: "scale", Shape: sh}
+				r.Evals.Add(3)
+				ok, sig, detail := c07ScaleEval(cs)
+				r.Distinct.Add("scale|" + sh)
+				if !ok {
+					r.Fail(engine.Failure{Sig: sig, Case: cs, Detail: detail, Size: 5})
+				}
+			}
+			r.Extra["work_scaling_shapes"] = len(c07ScaleShapes)
 			small := func(n string) bool { return len(c07Seeds[n]) <= 3000 }
 			for _, name := range c07Names {
 				seed := c07Seeds[name]
@@ -753,7 +764,7 @@ func init() {
 			}
 			r.Extra["string_parser_token_length"] = maxTok
 			r.Assumptions = []string{
-				"termination is decided by a 20 s watchdog around calls that normally cost < 10 ms; 'time proportional to the input' is not measured (no deterministic step counter is hooked in), only termination",
+				"termination is decided by a 20 s watchdog around calls that normally cost < 10 ms; 'time proportional to the input' is decided on ten input shapes scaled 4x/16x/64x by two deterministic work counters (heap allocations, allocated bytes) that must grow at most 1.5x faster than the input - in-place byte shuffling that allocates nothing is not seen by them",
 				"a stream cut inside its first record may yield zero records with or without an error",
 				strconv.Itoa(len(c07Names)) + " seeds; qualifier registries are warmed by one scan of every seed so that outcomes do not depend on scan history",
 			}
@@ -763,6 +774,11 @@ func init() {
 			var c c07Case
 			if err := json.Unmarshal(raw, &c); err != nil {
 				return true, "", err.Error()
+			}
+			if c.Kind == "scale" {
+				var sc c07ScaleCase
+				json.Unmarshal(raw, &sc)
+				return c07ScaleEval(sc)
 			}
 			return c07Eval(c)
 		}})
